@@ -181,8 +181,8 @@ def has_mul_over_div(s):
         if t[0] == "arith" and t[1] == "mul" and isinstance(t[3], list) and t[3][0] == "arith" and t[3][1] == "div":
             found.append(1)
     for it in sp.all_items(s):
-        if it[0] == "t":
-            sp.walk_terms(it[1], f)
+        for t_ in sp.item_terms(it):
+            sp.walk_terms(t_, f)
     return bool(found)
 
 
@@ -193,8 +193,8 @@ def has_sub_left_of_in(spec):
         if t[0] == "in" and isinstance(t[1], list) and t[1][0] == "sub":
             found.append(1)
     for it in sp.all_items(spec):
-        if it[0] == "t":
-            sp.walk_terms(it[1], f)
+        for t_ in sp.item_terms(it):
+            sp.walk_terms(t_, f)
     return bool(found)
 
 
